@@ -148,8 +148,14 @@ class RealModel:
             built.append(node)
             v = cell.value
             if v is None and node not in inputs:
-                # '?!': read as no value from stored results, not known to be reset
-                cache[node] = ['?!'] if getattr(cell, 'value_unknown', False) else ['?']
+                unknown = getattr(cell, 'value_unknown', False)
+                if unknown and node in self.wb.get('aliases', {}):
+                    # an unbounded range which resolves to a single empty cell:
+                    # calculated, the value is that of the blank cell
+                    cache[node] = W.js_val(None)
+                else:
+                    # '?!': read as no value from stored results, not known to be reset
+                    cache[node] = ['?!'] if unknown else ['?']
             else:
                 cache[node] = W.js_val(v)
         edges = sorted({(W.node_of(u.address.address), W.node_of(v.address.address))
